@@ -300,7 +300,7 @@ func commitKey(db *NoKV.DB, reader *Reader, key []byte, lock *Lock, commitVersio
 	if lock.MinCommitTs > commitVersion {
 		return keyErrorCommitTsExpired(key, commitVersion, lock.MinCommitTs)
 	}
-	write, commitTs, err := reader.GetWriteByStartTs(key, lock.Ts)
+	write, _, err := reader.GetWriteByStartTs(key, lock.Ts)
 	if err != nil {
 		return keyErrorRetryable(err)
 	}
@@ -308,12 +308,11 @@ func commitKey(db *NoKV.DB, reader *Reader, key []byte, lock *Lock, commitVersio
 		if write.Kind == pb.Mutation_Rollback {
 			return keyErrorAbort("transaction already rolled back")
 		}
-		if commitTs != commitVersion {
-			// Already committed with a different commit version; treat as success.
-			if err := db.DeleteVersionedEntry(kv.CFLock, key, lockColumnTs); err != nil && err != utils.ErrKeyNotFound {
-				return keyErrorRetryable(err)
-			}
-			return nil
+		// Already committed (a retry after the lock removal failed, or a commit with a
+		// different commit version): treat as success, and make sure the transaction's
+		// lock - the caller found it still in place - is gone.
+		if err := db.DeleteVersionedEntry(kv.CFLock, key, lockColumnTs); err != nil && err != utils.ErrKeyNotFound {
+			return keyErrorRetryable(err)
 		}
 		return nil
 	}
